@@ -255,6 +255,10 @@ func NewACL(ctx context.Context, policies []*Policy) (*ACL, error) {
 					// Later merges append to this list; see note above.
 					existingPerms.RequiredParameters = slices.Clone(existingPerms.RequiredParameters)
 				} else {
+					// The existing list may still alias the slice of the cached
+					// policy it was first taken from (ACLPermissions.Clone keeps
+					// the backing array): copy before appending to it.
+					existingPerms.RequiredParameters = slices.Clone(existingPerms.RequiredParameters)
 					for _, v := range pc.Permissions.RequiredParameters {
 						if !slices.Contains(existingPerms.RequiredParameters, v) {
 							existingPerms.RequiredParameters = append(existingPerms.RequiredParameters, v)
